@@ -232,7 +232,7 @@ def expand_brackets(s: str) -> str:
         else:
             # Looks for first number*(
             m = BRACKET_RE.search(s)
-            if m:
+            if m and m.end() == start + 1:  # The factor must belong to this bracket, not a later one.
                 factor = int(m.group('factor'))
                 matchstart = m.start('factor')
                 s = s[0:matchstart] + ','.join([s[start + 1:p]] * factor) + s[p + 1:]
